@@ -31,3 +31,25 @@ Theorem C01_move_total : forall p m, wf_pos p ->
   (exists p', move p m = Some p' /\ legal_step p m p') \/
   (move p m = None /\ ~ exists p', legal_step p m p').
 Proof. exact move_total. Qed.
+
+(* ---- the same statements about the function REGENERATED FROM THE SOURCE (gen/GameGen.v, written by
+   harness/py2coq.py from the current game.py on every run against model/PySem.v = Python's indexing /
+   slicing / exception semantics; proofs/GameGenEq.v, GameGenCor.v).  A slide whose slides field is
+   Python's None raises TypeError in the code; that is outside the property's domain ("any tuple of
+   integer drop counts") and is excluded by slide_has_drops where needed. ---- *)
+From TV Require Import model.PySem proofs.GameGenEq proofs.GameGenCor.
+From TV Require gen.GameGen.
+(* the translated Position.move returns a successor exactly when the rulebook allows it, and that successor *)
+Theorem C01_source_move_iff : forall p m p', wf_pos p -> (GameGen.move p m = Ok p' <-> legal_step p m p').
+Proof. exact gen_move_iff. Qed.
+(* accepted with the prescribed successor, or refused with IllegalMove exactly when no successor is allowed *)
+Theorem C01_source_move_total : forall p m, wf_pos p -> slide_has_drops m ->
+  (exists p', GameGen.move p m = Ok p' /\ legal_step p m p') \/
+  (GameGen.move p m = Illegal /\ ~ exists p', legal_step p m p').
+Proof. exact gen_move_total. Qed.
+(* "no other error escapes": no IndexError / negative-index wrap / TypeError, as a theorem about the translated source *)
+Theorem C01_source_move_never_crashes : forall p m, shape p -> slide_has_drops m -> forall e, GameGen.move p m <> Crash e.
+Proof. exact gen_move_never_crashes. Qed.
+(* the translated source computes exactly the hand model, for every move value on every board of size^2 squares *)
+Theorem C01_source_is_model : forall p m, shape p -> slide_has_drops m -> GameGen.move p m = embed (Tak.move p m).
+Proof. exact gen_move_eq. Qed.
